@@ -47,8 +47,10 @@ def strategy_impl(draw, tier):
     if only in fams:
         sc = draw(fams[only])
     else:
-        sc = draw(st.one_of(fams["faces"], fams["faces"], fams["equiv"], fams["ufunc"], fams["autoparse"], fams["metric-partitions"],
-                            fams["metric-batches"], scen_gen.any_family(2)))
+        # (weights through a drawn index: one_of() would merge the repeated strategy objects)
+        k = draw(st.integers(0, 9))
+        sc = draw([fams["faces"], fams["faces"], fams["faces"], fams["equiv"], fams["ufunc"], fams["autoparse"], fams["metric-partitions"],
+                   fams["metric-batches"], scen_gen.any_family(2), scen_gen.any_family(2)][k])
     perm = None
     fc = (sc.get("grid") or {}).get("face_connections")
     if fc:
@@ -69,6 +71,10 @@ def variants(case):
         sc2["grid"]["face_connections"]["order"] = list(case["perm"]["order"])
         sc2["grid"]["face_connections"]["reverse_axes"] = bool(case["perm"]["reverse_axes"])
         out.append(sc2)
+        # ... and the faces listed back to front (what the last-listed face says must not win either)
+        sc3 = json.loads(json.dumps(sc))
+        sc3["grid"]["face_connections"]["order"] = list(range(len(sc["grid"]["face_connections"]["table"])))[::-1]
+        out.append(sc3)
     return out
 
 
